@@ -59,7 +59,8 @@ NumCases ==
   \o << C("bin", <<L(<<"x">>)>>), C("hex", <<L(Frac)>>), C("oct", <<L(Empty)>>), C("bin", <<Num(Huge)>>),
         C("abs", <<Num(Neg(5))>>), C("abs", <<Num(D(7))>>), C("abs", <<Num(D(0))>>), C("abs", <<L(<<"q">>)>>),
         C("power", <<Num(D(2)), Num(D(9))>>), C("power", <<Num(D(3)), Num(D(0))>>), C("power", <<Num(D(10)), Num(D(3))>>),
-        C("power", <<Num(Neg(2)), Num(D(3))>>), C("power", <<Num(D(2)), L(<<"x">>)>>), C("power", <<L(<<"x">>), Num(D(2))>>),
+        C("power", <<Num(Neg(2)), Num(D(3))>>), C("power", <<Num(D(2)), Num(D(70))>>), C("power", <<Num(D(2)), Num(D(63))>>), C("power", <<Num(D(10)), Num(D(20))>>),
+        C("length", <<C("power", <<Num(D(10)), Num(D(6))>>)>>), C("power", <<Num(D(2)), Num(D(31))>>), C("power", <<Num(D(2)), L(<<"x">>)>>), C("power", <<L(<<"x">>), Num(D(2))>>),
         C("sqrt", <<Num(D(25))>>), C("sqrt", <<Num(D(0))>>), C("sqrt", <<Num(D(2))>>), C("sqrt", <<Num(D(10))>>), C("sqrt", <<Num(D(1024))>>), C("sqrt", <<L(<<"x">>)>>),
         C("log", <<Num(D(1000))>>), C("log", <<Num(D(1))>>), C("log", <<Num(D(10))>>), C("log", <<L(<<"x">>)>>),
         C("ln", <<Num(D(1))>>), C("ln", <<L(<<"x">>)>>), C("exp", <<Num(D(0))>>), C("exp", <<L(<<"x">>)>>),
@@ -87,7 +88,7 @@ ColumnCases ==
      C("substr", <<Col("name"), Num(D(2)), Num(D(3))>>), C("substr", <<Col("name"), Num(Neg(3))>>), C("substr", <<Col("name"), Num(D(6))>>),
      C("replace", <<Col("name"), L(<<".">>), L(<<"_">>)>>), C("concat", <<Col("name"), L(<<"|">>), Col("size")>>),
      C("concat_ws", <<L(<<":">>), Col("size"), Col("name")>>), C("coalesce", <<C("substr", <<Col("name"), Num(D(5))>>), L(<<"s","h","o","r","t">>)>>),
-     C("hex", <<Col("size")>>), C("bin", <<Col("size")>>), C("oct", <<Col("size")>>), C("abs", <<Col("size")>>), C("power", <<Col("size"), Num(D(2))>>),
+     C("hex", <<Col("size")>>), C("bin", <<Col("size")>>), C("oct", <<Col("size")>>), C("abs", <<Col("size")>>), C("power", <<Col("size"), Num(D(2))>>), C("power", <<Num(D(2)), Col("size")>>),
      C("sqrt", <<Col("size")>>), C("least", <<Col("size"), Num(D(100))>>), C("greatest", <<Col("size"), Num(D(100))>>), C("format_time", <<Col("size")>>),
      C("length", <<C("upper", <<C("substr", <<Col("name"), Num(D(1)), Num(D(4))>>)>>)>>), C("upper", <<C("replace", <<C("lower", <<Col("name")>>), L(<<"t">>), L(<<"T","T">>)>>)>>),
      C("bin", <<Col("name")>>), C("year", <<Col("name")>>), C("format_time", <<Col("name")>>) >>
